@@ -164,7 +164,7 @@ def gen_histories(rng, n, **kw):
         c = Case('h%d' % i, meta={'texts': texts})
         for t in texts:
             c.eval(programs.render_text(t))
-            c.vars(programs.VARS)
+            c.vars(g.all_vars())
         cases.append(c)
         for k, v in g.stats.items(): stats[k] = stats.get(k, 0) + v
     return cases, stats
@@ -201,3 +201,107 @@ def oracle_confirms(d):
     return d.get('why') == 'differ'
 
 CHECKS = {'C01': check_C01}
+
+# ---------------------------------------------------------------- C03
+BINDERS = {'let', 'let*', 'dolist', 'dotimes', 'lambda', 'defun', 'defmacro'}
+
+def ticks_under_binders(x, under=False, acc=None):
+    from .gen.sexp import Wrap, Dot
+    if acc is None: acc = set()
+    if isinstance(x, Wrap): ticks_under_binders(x.x, under, acc)
+    elif isinstance(x, Dot):
+        for i in x.items: ticks_under_binders(i, under, acc)
+        ticks_under_binders(x.tail, under, acc)
+    elif isinstance(x, (list, tuple)) and x:
+        if x[0] == 'tick' and len(x) == 3 and under: acc.add(x[1])
+        u = under or (isinstance(x[0], str) and x[0] in BINDERS)
+        for i in x: ticks_under_binders(i, u, acc)
+    return acc
+
+def vars_depth_oracle(line):
+    """Top level, after a request: every program variable has at most its global binding."""
+    idx, kind, payload, _ = core.parse_line(line)
+    bad = []
+    if kind != 'VARS': return bad
+    for a in payload.split(';'):
+        if not a: continue
+        name, rest = a.split('=')
+        depth = int(rest.split(':')[0])
+        if depth > 1: bad.append((unhx(name), depth))
+    return bad
+
+def check_C03(tier, seed):
+    res = Result('C03', tier, seed); res.pending = []
+    gate = proof_gate('C03')
+    core.build_model(); core.build_impl()
+    rng = random.Random(seed)
+    n = tier_n(tier, 250, 6000)
+    maxk = tier_n(tier, 10, 40)
+    hist = []; allvars = []
+    stats = {}
+    for i in range(n):
+        g = programs.ProgGen(rng, tick_p=0.5, err_p=0.01)
+        texts = g.history(ntexts=rng.choice([1, 2]))
+        hist.append(texts); allvars.append(g.all_vars())
+        for k, v in g.stats.items(): stats[k] = stats.get(k, 0) + v
+    # phase 1: fault-free, to learn the number of probe points of every request
+    base = []
+    for i, texts in enumerate(hist):
+        c = Case('b%d' % i)
+        for t in texts: c.eval(programs.render_text(t))
+        base.append(c)
+    impl0 = core.run_side(core.TLIMPL_DEBUG, base, announce=True)
+    cases = []
+    crossing = 0
+    for i, texts in enumerate(hist):
+        lines = impl0.get('b%d' % i, [])
+        under = set()
+        for t in texts: ticks_under_binders(t, False, under)
+        for r, t in enumerate(texts):
+            if r >= len(lines): break
+            _, kind, payload, ticks = core.parse_line(lines[r])
+            tl = [] if ticks in ('-', '?', None) else ticks.split(',')
+            nt = len(tl)
+            ks = list(range(1, nt + 1))
+            if len(ks) > maxk: ks = sorted(rng.sample(ks, maxk))
+            for k in ks:
+                c = Case('h%d_r%d_k%d' % (i, r, k))
+                for r2, t2 in enumerate(texts):
+                    c.failat(k if r2 == r else None)
+                    c.eval(programs.render_text(t2))
+                    c.vars(allvars[i])
+                # follow-up request: reads every variable
+                c.failat(None)
+                c.eval('(list ' + ' '.join("(if (boundp '%s) %s 'unbound)" % (v, v) for v in allvars[i]) + ')')
+                c.meta = {'under': int(tl[k - 1].split(':')[0]) in under}
+                cases.append(c)
+    impl, model, dis = differential(res, cases)
+    # model-free oracle on the implementation
+    byid = {c.cid: c for c in cases}
+    nbad = 0
+    distinct = set()
+    for c in cases:
+        ls = impl.get(c.cid, [])
+        for l in ls:
+            bad = vars_depth_oracle(l)
+            if bad and nbad < 10:
+                nbad += 1
+                res.violation('stale-binding', {'requests': c.readable(), 'stale': bad, 'line': decode_line(l),
+                                                'oracle': 'after a top-level request every variable has depth <= 1',
+                                                'raw_case': c.text()})
+        if c.meta.get('under') and any(core.parse_line(l)[1] == 'E' for l in ls):
+            distinct.add(tuple(ls))
+    res.cov['distinct_nontrivial'] = len(distinct)
+    res.cov['rule'] = ('random histories; every request is re-run once per probe point k (the k-th (tick ..) evaluation fails), '
+                       'up to %d points per request; after every request the binding depth and values of the six program variables '
+                       'are read back (boundp/get/unset/set_scope) and a follow-up request reads them; oracle: depth <= 1 at top level, '
+                       'and the whole transcript equals the extracted model; non-trivial = distinct transcripts whose injected failure '
+                       'was lexically inside let/let*/dolist/dotimes/lambda/defun' % maxk)
+    res.cov['generator_distribution'] = stats
+    res.cov['histories'] = n
+    res.cov['samples'] = sample_cases(cases)
+    for d in res.pending:
+        res.violation('disagreement', d, no_input=not oracle_confirms(d))
+    return res.finish(gate)
+
+CHECKS['C03'] = check_C03
